@@ -74,6 +74,13 @@ class ModelProperty(PropertyProtocol):
             else:
                 class_string = title
         class_info = Class.from_string(string=class_string, config=config)
+        if class_info.name in schemas.classes_by_name:
+            # Checked before anything is recorded for this name: it belongs to another schema, which must not be
+            # registered as a dependant of (and later removed together with) the schema that clashes with it.
+            error = PropertyError(
+                data=data, detail=f'Attempted to generate duplicate models with name "{class_info.name}"'
+            )
+            return error, schemas
         model_roots = {*roots, class_info.name}
         required_properties: list[Property] | None = None
         optional_properties: list[Property] | None = None
@@ -112,12 +119,6 @@ class ModelProperty(PropertyProtocol):
             python_name=utils.PythonIdentifier(value=name, prefix=config.field_prefix),
             example=data.example,
         )
-        if class_info.name in schemas.classes_by_name:
-            error = PropertyError(
-                data=data, detail=f'Attempted to generate duplicate models with name "{class_info.name}"'
-            )
-            return error, schemas
-
         schemas = evolve(
             schemas,
             classes_by_name={**schemas.classes_by_name, class_info.name: prop},
